@@ -30,6 +30,34 @@ func VerifDir() string {
 	return "/verif"
 }
 
+// ---- crash journal ---------------------------------------------------------
+// A fatal runtime error in the code under test (stack overflow, out of memory, concurrent map
+// write) kills the process and cannot be recovered. When a shard dies the driver re-runs it with
+// VERIF_JOURNAL set: every case is then written to that file before it is evaluated, so the case
+// that was in flight when the process died is known and can be replayed alone.
+var (
+	journalOnce sync.Once
+	journalFile *os.File
+	journalMu   sync.Mutex
+)
+
+// JournalCase records the case about to be evaluated (no-op unless VERIF_JOURNAL is set).
+func JournalCase(kind string, raw []byte) {
+	journalOnce.Do(func() {
+		if p := os.Getenv("VERIF_JOURNAL"); p != "" {
+			journalFile, _ = os.OpenFile(p, os.O_CREATE|os.O_RDWR|os.O_TRUNC, 0o644)
+		}
+	})
+	if journalFile == nil {
+		return
+	}
+	b, _ := json.Marshal(map[string]any{"kind": kind, "case": json.RawMessage(raw)})
+	journalMu.Lock()
+	journalFile.WriteAt(b, 0)
+	journalFile.Truncate(int64(len(b)))
+	journalMu.Unlock()
+}
+
 // Violation is one failing case, already written to a replay file.
 type Violation struct {
 	Sub    string `json:"sub"`
@@ -438,6 +466,7 @@ func (c *Ctx) Eval(kind string, v any) error {
 	if Aborted() {
 		return nil // a call hung earlier in this process: stop exploring (and stop shrinking)
 	}
+	JournalCase(kind, raw)
 	e := Safe(func() error { return fn(raw) })
 	if e == nil {
 		return nil
@@ -720,6 +749,7 @@ func (c *Ctx) Replay(path string) error {
 	if fn == nil {
 		return fmt.Errorf("hx: unknown kind %q", rf.Kind)
 	}
+	JournalCase(rf.Kind, rf.Case)
 	return Safe(func() error { return fn(rf.Case) })
 }
 
